@@ -77,14 +77,24 @@ def main():
         else:
             init = {"standard": StandardInitializer, "grow": GrowInitializer}.get(cfg.get("init", "standard"), StandardInitializer)()
         try:
+            kw = {}
+            if cfg.get("own_tracker"):      # a tracker supplied by the caller (the way recorders are attached)
+                from geneticengine.evaluation.tracker import SingleObjectiveProgressTracker
+                kw["tracker"] = SingleObjectiveProgressTracker(problem)
             if alg == "GP":
-                a = GeneticProgramming(problem, budget, rep, rs, population_size=cfg.get("pop", 8), population_initializer=init)
+                if cfg.get("step") == "xo":  # a step in which crossover fires often (the default step uses 0.01)
+                    from geneticengine.algorithms.gp.operators.combinators import SequenceStep
+                    from geneticengine.algorithms.gp.operators.crossover import GenericCrossoverStep
+                    from geneticengine.algorithms.gp.operators.mutation import GenericMutationStep
+                    from geneticengine.algorithms.gp.operators.selection import TournamentSelection
+                    kw["step"] = SequenceStep(TournamentSelection(3), GenericCrossoverStep(0.9), GenericMutationStep(0.5))
+                a = GeneticProgramming(problem, budget, rep, rs, population_size=cfg.get("pop", 8), population_initializer=init, **kw)
             elif alg == "RS":
-                a = RandomSearch(problem, budget, rep, rs)
+                a = RandomSearch(problem, budget, rep, rs, **kw)
             elif alg == "HC":
-                a = HC(problem, budget, rep, rs, number_of_mutations=3)
+                a = HC(problem, budget, rep, rs, number_of_mutations=3, **kw)
             else:
-                a = OnePlusOne(problem, budget, rep, rs)
+                a = OnePlusOne(problem, budget, rep, rs, **kw)
             best = a.search()
             ph = best.get_phenotype()
             k = term_key(term_of(ph))
